@@ -105,7 +105,7 @@ class Recorder:
             cls.checkForConflicts = real
 
 
-def run_level1(E, cfg):
+def run_level1(E, cfg, prepare=None, repeat=False):
     """returns ctx; ctx['exc'] is set when the real code raised"""
     KR, KQ, NP, rev = cfg["KR"], cfg["KQ"], cfg["NP"], cfg["rev"]
     fragment = cfg.get("fragment", False)
@@ -135,9 +135,14 @@ def run_level1(E, cfg):
     rec = Recorder()
     try:
         aligner = build_aligner(P)
+        ctx["aligner"] = aligner
+        if prepare:
+            prepare(aligner, ctx)
         rec.install(aligner)
         try:
             ctx["row"] = aligner.align(R, Q, peaks if NP != 1 or cfg.get("as_list") else peaks[0], rev)
+            if repeat:
+                ctx["row2"] = aligner.align(R, Q, peaks if NP != 1 or cfg.get("as_list") else peaks[0], rev)
         finally:
             rec.uninstall()
     except Exception as ex:  # noqa
